@@ -24,7 +24,7 @@ RULE = (
     "missing fields are only required to be finite. Non-trivial = a file with >= 1 het, >= 1 hom and >= 1 "
     "filtered record and a range holding >= 2 hets; distinct = distinct case JSON."
 )
-QUICK = {"examples": 800, "shards": 16, "budget_s": 400}
+QUICK = {"examples": 2400, "shards": 16, "budget_s": 400}
 THOROUGH = {"examples": 16000, "shards": 16, "budget_s": 3000}
 ASSUMPTIONS = [
     "biallelic records only; a record whose chosen sample has GT ./. or a '.' in DP/AD is 'incomplete': its values are only required to be finite and it may or may not pass the depth filter",
